@@ -18,9 +18,9 @@ static double const U_ = double(std::numeric_limits<R>::epsilon()) / 2;
 // results in the subnormal range of a_real carry absolute, not relative precision
 static double const FLOOR_ = sizeof(R) == 8 ? 1e-300 : 4 * double(std::numeric_limits<R>::denorm_min());
 
-enum { L_P3, L_P5, L_P7, L_ALL_NONZERO, L_T_POW2, L_T_REAL, L_T_SMALL, L_T_LARGE, L_INT_DATA, L_REAL_DATA, L_POLY, L_POLY_N0, L_POLY_N1, L_QUERY_OUTSIDE, L_J0_NE_J1, L_NEAR_DEGENERATE, L_RELATED_DATA };
+enum { L_P3, L_P5, L_P7, L_ALL_NONZERO, L_T_POW2, L_T_REAL, L_T_SMALL, L_T_LARGE, L_INT_DATA, L_REAL_DATA, L_POLY, L_POLY_N0, L_POLY_N1, L_QUERY_OUTSIDE, L_J0_NE_J1, L_NEAR_DEGENERATE, L_RELATED_DATA, L_REPLANNED };
 static char const *const labels[] = {"cubic", "quintic", "septic", "all_boundary_derivatives_nonzero", "duration_power_of_two", "duration_real", "duration_lt_1/16", "duration_gt_16",
-                                     "integer_boundary_data", "real_boundary_data", "poly_eval_evar_swap", "poly_n_0", "poly_n_1", "query_outside_0_T", "j0_ne_j1", "boundary_data_of_a_lower_degree_motion_perturbed", "end_data_equal_negated_or_mirrored_start_data", nullptr};
+                                     "integer_boundary_data", "real_boundary_data", "poly_eval_evar_swap", "poly_n_0", "poly_n_1", "query_outside_0_T", "j0_ne_j1", "boundary_data_of_a_lower_degree_motion_perturbed", "end_data_equal_negated_or_mirrored_start_data", "context_planned_before_with_another_request", nullptr};
 static char const *const metrics[] = {"max_end_value_error_over_u_scale", "max_coefficient_error_over_u_scale", "max_horner_error_over_bound", nullptr};
 static uint8_t const dict[] = {3, 5, 7, 10, 20};
 static vp_info const info = {"C15", "poly", "", labels, metrics, 128, dict, sizeof(dict)};
@@ -190,6 +190,18 @@ static void case_traj(Tape &t, Ctx &cx, unsigned m)
     a_trajpoly5 c5;
     a_trajpoly7 c7;
     R *cc;
+    // the context objects start with arbitrary contents or with an earlier plan: half of the cases plan another request on the
+    // same object first (an early-out that "keeps" part of the object shows here)
+    memset(&c3, 0x5A, sizeof(c3));
+    memset(&c5, 0x5A, sizeof(c5));
+    memset(&c7, 0x5A, sizeof(c7));
+    if (cx.hash.h & 1)
+    {
+        if (m == 2) { a_trajpoly3_gen(&c3, T * 2, d1[0], d0[0] + 1, R(3), R(-2)); }
+        else if (m == 3) { a_trajpoly5_gen(&c5, T * 2, d1[0], d0[0] + 1, R(3), R(-2), R(1), R(4)); }
+        else { a_trajpoly7_gen(&c7, T * 2, d1[0], d0[0] + 1, R(3), R(-2), R(1), R(4), R(-5), R(6)); }
+        cx.label(L_REPLANNED);
+    }
     if (m == 2) { a_trajpoly3_gen(&c3, T, d0[0], d1[0], d0[1], d1[1]); cc = c3.c; }
     else if (m == 3) { a_trajpoly5_gen(&c5, T, d0[0], d1[0], d0[1], d1[1], d0[2], d1[2]); cc = c5.c; }
     else { a_trajpoly7_gen(&c7, T, d0[0], d1[0], d0[1], d1[1], d0[2], d1[2], d0[3], d1[3]); cc = c7.c; }
